@@ -102,9 +102,14 @@ def explore_block(acc, cfg, depth):
             if ev[0] == 'v':
                 obs = ('v', bool(b.validate(ev[1], ev[2])))
             elif ev[0] == 'g':
-                obs = ('g', list(b.getValues(ev[1], ev[2])))
+                r = b.getValues(ev[1], ev[2])
+                obs = ('g', list(r))
+                if isinstance(r, list):
+                    r[:] = [0xEEEE] * (len(r) + 1)          # the caller does what it likes with the list it got back
             elif ev[0] == 's':
-                b.setValues(ev[1], list(ev[2]))
+                vals = list(ev[2])
+                b.setValues(ev[1], vals)
+                vals[:] = [0xEEEE] * (len(vals) + 1)        # ... and with the list it passed in
                 for i, v in enumerate(ev[2]):
                     model[ev[1] + i] = v
                 obs = ('s',)
